@@ -213,3 +213,34 @@ def every_third(lo, n):
     for k in range(lo, n, 3):
         out.append(k)
     return out
+
+
+def clamp_then_double(x, lo, hi):
+    if x < lo:
+        y = lo
+    elif x > hi:
+        y = hi
+    else:
+        y = x
+    z = y * 2
+    return z
+
+
+def checked_div(a, b):
+    if b == 0:
+        raise ValueError('zero')
+    q = a // b
+    r = q + 1
+    return r
+
+
+def block_leaks_local(x):
+    t = x + 1
+    u = t * 2
+    return u + t
+
+
+def block_touches_more(xs, ys):
+    xs.append(1)
+    ys.append(2)
+    return len(xs) + len(ys)
